@@ -135,12 +135,18 @@ RULE_PROP = {"cow": "C17", "ht-after-meta": "C17", "prune-after-meta": "C17", "w
              "recover-metasync": "C04", "recover-htsync": "C04"}
 
 PLANS = {
-    "C03": dict(quick=dict(behs=8, depth=20, mode="crash", budget=2, nested=1, stride=1, fs=[1, 3, 25], mc_crashes=2, mutants=False, decode=True, max_ops=4),
+    "C03": dict(quick=dict(behs=8, depth=20, mode="crash", budget=2, nested=1, stride=1, fs=[1, 3, 12, 25], mc_crashes=2, mutants=False, decode=True, max_ops=4, growth=2),
                 thorough=dict(behs=150, depth=28, mode="crash", budget=6, nested=4, stride=1, fs=[1, 3, 25], mc_crashes=3, mutants=True, decode=True)),
     "C04": dict(quick=dict(behs=8, depth=20, mode="both", budget=6, nested=2, stride=1, fs=[1, 3], mc_crashes=2, mutants=True, max_ops=4),
                 thorough=dict(behs=120, depth=28, mode="both", budget=24, nested=4, stride=1, fs=[1, 3, 25], mc_crashes=3, mutants=True)),
     "C17": dict(quick=dict(behs=60, depth=24, mode="none", budget=0, nested=0, stride=1, fs=[1, 3, 25, 60], mc_crashes=1, mutants=True),
                 thorough=dict(behs=600, depth=30, mode="none", budget=0, nested=0, stride=1, fs=[1, 3, 25, 60, 400], mc_crashes=2, mutants=True)),
+    # C16's crash leg: recovered images of histories whose merkle pages cross the elision threshold while parts of
+    # them stay untouched (groups of 10-15 keys under one deep page), every image decoded by the independent decoder
+    "C16": dict(quick=dict(behs=4, depth=18, mode="crash", budget=1, nested=0, stride=2, fs=[10, 12, 15], mc_crashes=1, mutants=False,
+                           decode=True, max_ops=4, growth=4, embs=["deep(12)", "deep(18)", "deep(12):z", "deep(13)", "deep(24)"]),
+                thorough=dict(behs=80, depth=26, mode="crash", budget=2, nested=1, stride=1, fs=[8, 10, 12, 15, 19, 21], mc_crashes=2,
+                              mutants=False, decode=True, growth=60, embs=["deep(12)", "deep(18)", "deep(12):z", "deep(24)", "deep(13)", "spread(6)"])),
     "C14": dict(quick=dict(behs=6, depth=14, faults=90, fs=[1, 3], mc_crashes=1, mutants=False),
                 thorough=dict(behs=80, depth=24, faults=8000, fs=[1, 3, 25], mc_crashes=2, mutants=False)),
 }
@@ -170,7 +176,8 @@ def gen_scripts(pid, plan, seed, rng, with_overlay=True):
             store = dict(rng.choice(CRASH_STORE_CFGS))
             store.update(rollback=True, max_rollback_log_len=maxlog, seed=rng.randrange(1 << 30),
                          segment_size=rng.choice([0, 4096, 8192]))
-            conc = dict(keys=sorted(consts["Keys"]), vals=sorted(consts["Vals"]), emb=rng.choice(api.EMBEDDINGS_QUICK),
+            conc = dict(keys=sorted(consts["Keys"]), vals=sorted(consts["Vals"]),
+                        emb=rng.choice(plan.get("embs") or (api.EMBEDDINGS_QUICK + ["deep(6)", "deep(12)", "deep(12)", "deep(18)"])),
                         f=rng.choice(plan["fs"]), vtable=api.VTABLES[rng.choice(["tiny", "edge", "ovf", "mixed"])],
                         seed=rng.randrange(1 << 30), probes=2)
             run += 1
@@ -182,11 +189,37 @@ def gen_scripts(pid, plan, seed, rng, with_overlay=True):
                 sc["crash_steps"] = sorted(keep)
             scripts.append(sc)
             classes[run] = ckey
+    if plan.get("growth"):
+        # one group at a time: sub-tries grow and shrink across the page-elision threshold while their neighbours
+        # stay untouched (legal NomtApi behaviours; ApiTrace validates them like the generated ones)
+        consts = consts_by_class["ml2_rb1"]
+        keys = sorted(consts["Keys"])
+        for gi in range(plan["growth"]):
+            order = keys[:]
+            rng.shuffle(order)
+            beh = []
+            def commit(w):
+                beh.extend([dict(a="Begin", s=1, chain=[], res="Ok"), dict(a="Finish", s=1, f=1, w=w),
+                            dict(a=rng.choice(["Commit", "TryCommit"]), f=1, res="Ok")])
+            for k in order:
+                commit({x: ("v1" if x == k else "NoCh") for x in keys})
+            for k in order[:2]:
+                commit({x: ("Nil" if x == k else "NoCh") for x in keys})
+            commit({x: ("v2" if x == order[0] else "NoCh") for x in keys})
+            store = dict(rng.choice(CRASH_STORE_CFGS))
+            store.update(rollback=True, max_rollback_log_len=2, seed=rng.randrange(1 << 30), segment_size=0)
+            conc = dict(keys=keys, vals=sorted(consts["Vals"]), emb=rng.choice(plan.get("embs") or ["deep(12)"]),
+                        f=rng.choice(plan["fs"]), vtable=api.VTABLES["tiny"], seed=rng.randrange(1 << 30), probes=2)
+            run += 1
+            sc = api.make_script(run, beh, store, conc)
+            sc["crash_steps"] = [i for i, s in enumerate(beh) if s["a"] in SYNC_OPS]
+            scripts.append(sc)
+            classes[run] = "ml2_rb1"
     return scripts, classes, consts_by_class
 
 
-def run_plan(pid, tier, seed):
-    t0 = time.time()
+def run_plan(pid, tier, seed, extra_cov=None, t0=None):
+    t0 = t0 or time.time()
     tier_name = tier
     plan = PLANS[pid][tier]
     rng = random.Random(seed * 15485863 + int(pid[1:]))
@@ -243,14 +276,19 @@ def run_plan(pid, tier, seed):
     for rej in rejections:
         sc = script_by_run[rej["run"]]
         prop = api.attribute(rej, sc["steps"])
+        rec = rej["record"]
+        props = {prop}
+        dec = (rec.get("st") or {}).get("dec") if isinstance(rec.get("st"), dict) else None
+        if rec.get("ev") == "Image" and dec and not (dec.get("ok") and dec.get("kvOk")):
+            props.add("C16")         # a recovered image that does not decode to a well-formed structure
         fid = findings.match_api(prop, rej, sc)
         if fid:
             known.append(fid)
             continue
-        if prop != pid:
+        if pid not in props:
             notes.append("run %d rejected at %s (class %s): attributed to %s" % (rej["run"], rej["record"].get("ev"), rej["cls"], prop))
             continue
-        rec = rej["record"]
+        prop = pid
         p = C.write_replay(pid, "run%d" % rej["run"], dict(kind="crash-image", property=prop, script=sc, rejected_record=rec,
                                                             failing_class=rej["cls"], tier=tier, seed=seed))
         violations.append(dict(prop=prop, replay=p,
@@ -270,7 +308,8 @@ def run_plan(pid, tier, seed):
         violations.append(dict(prop=prop, replay=p, what="I/O ordering rule '%s' violated by %s" % (rule, json.dumps(rec)[:200])))
     return finish(pid, tier, seed, t0, states, trans, mcs, mutant_res, violations, known, notes,
                   evaluations=n_images + len(events), accepted=accepted_total, scripts=scripts, extra=dict(
-                      images=n_images, recorded_ops=n_ops, io_events=len(events), rule_violations=len(rule_hits)),
+                      images=n_images, recorded_ops=n_ops, io_events=len(events), rule_violations=len(rule_hits),
+                      **({"other_leg": extra_cov} if extra_cov else {})),
                   distinct=len({(r.get("run"), r.get("i"), r.get("k"), r.get("variant"), r.get("kind"))
                                 for rs in runs.values() for r in rs if r.get("ev") == "Image"}) + n_ops)
 
@@ -313,9 +352,10 @@ def run_faults(pid, tier, seed, plan, rng, t0, states, trans, mcs, violations):
         sc["run"] = frun
         sc["crash_steps"] = []
         sc["exhaust"] = True
-        sc["cfg"]["hashtable_buckets"] = rng.choice([16, 32, 64, 128])
-        sc["conc"]["f"] = rng.choice([25, 40, 60, 100])
-        sc["conc"]["emb"] = rng.choice(["scatter", "spread(6)", "spread(7):z", "top"])
+        # stored pages only exist for sub-tries with >= 20 leaves: scattered keys and big groups are needed to fill a table
+        sc["cfg"]["hashtable_buckets"] = rng.choice([16, 32, 64])
+        sc["conc"]["f"] = rng.choice([100, 200, 400])
+        sc["conc"]["emb"] = rng.choice(["scatter", "scatter", "top"])
         sc["conc"]["vtable"] = api.VTABLES["tiny"]
         sc["lenient"] = False
         fscripts.append(sc)
@@ -381,7 +421,8 @@ def finish(pid, tier, seed, t0, states, trans, mcs, mutant_res, violations, know
         samples.append(dict(store=sc["cfg"], emb=sc["conc"]["emb"], F=sc["conc"]["f"], crash_steps=sc.get("crash_steps"),
                             fault=sc.get("fault"), mode=sc.get("crash_mode"),
                             steps=[{k: v for k, v in s.items() if k != "cfg"} for s in sc["steps"]]))
-    lvl = level or {"C03": "fault_enumeration", "C04": "model_checking", "C17": "model_checking", "C14": "fault_enumeration"}[pid]
+    lvl = level or {"C03": "fault_enumeration", "C04": "model_checking", "C17": "model_checking", "C14": "fault_enumeration",
+                    "C16": "model_checking"}[pid]
     cov = dict(states=states, transitions=trans, traces_validated_against_impl=accepted, samples=samples or [{}],
                evaluations=max(evaluations, 1), distinct_nontrivial=max(distinct, 2),
                rule="scripts are TLC simulations of ApiGen; every successful sync operation (commit flavours, overlay commits, "
@@ -390,5 +431,8 @@ def finish(pid, tier, seed, t0, states, trans, mcs, mutant_res, violations, know
                     "operation or at its return and is distinct by construction",
                exhaustive=False, model_checking=mcs, guard_mutants_caught=mutant_res, known_findings=sorted({k["id"] for k in known}),
                notes=notes[:15], **extra)
+    if extra.get("other_leg"):
+        for k in ("states", "transitions", "traces_validated_against_impl", "evaluations", "distinct_nontrivial"):
+            cov[k] = cov.get(k, 0) + int(extra["other_leg"].get(k, 0))
     C.write_evidence(pid, tier, seed, lvl, cov, time.time() - t0, ASSUME, violations=len(violations))
     return 1 if violations else 0
